@@ -318,8 +318,14 @@ func genOneX(r *rand.Rand, kind string, big bool, twist int) *producedMsg {
 		mode = "raw"
 		payload = hx(randBytes(r, []int{65519, 65520, 65527, 65528, 65534, 65535, 65535, 65536}[r.Intn(8)]))
 	}
+	if forceRawPayload > 0 { // fixed slot of the caller: a byte-string payload of exactly this length
+		mode, payload = "raw", hx(randBytes(r, forceRawPayload))
+		forceRawPayload = 0
+	}
 	return buildProduce(r, kind, mode, payload, prot, unprot, extTok(r), keys)
 }
+
+var forceRawPayload int
 
 func genMsg(r *rand.Rand, n int, flavour string) []string {
 	var out []string
@@ -335,6 +341,21 @@ func genMsg(r *rand.Rand, n int, flavour string) []string {
 		if flavour == "roundtrip" && (i%7 == 3 || i%7 == 5) { // fixed slots, every kind in turn: a kid of the caller's own in the unprotected bucket / the counterpart key held under another kid
 			kind = kindsAll[(i/7)%len(kindsAll)]
 			p = genOneX(r, kind, false, 1+(i%7-3)/2)
+		}
+		if (flavour == "tamper-auth" || flavour == "roundtrip") && i%30 == 2 {
+			// fixed slots: each authenticated kind in turn with a byte-string payload in the 4-octet length class
+			// (where a decoder might hand out a view of its input instead of a copy)
+			forceRawPayload = []int{65536, 70000, 66000}[(i/120)%3]
+			p = genOne(r, kindsAll[(i/30)%4], false)
+		}
+		if flavour == "roundtrip" && i%40 == 6 {
+			// fixed slots: messages of several hundred KiB (beyond any "reasonable" input limit a decoder might impose),
+			// each one-layer kind and size in turn
+			j := i / 40
+			kind := []string{"mac0", "sign1", "encrypt0"}[j%3]
+			alg := map[string][]int{"mac0": macAlgs, "sign1": {iana.AlgorithmEdDSA, iana.AlgorithmES256}, "encrypt0": {iana.AlgorithmA128GCM, iana.AlgorithmChaCha20Poly1305, iana.AlgorithmA256GCM}}[kind]
+			k := genMsgKey(r, alg[(j/3)%len(alg)], false)
+			out = append(out, fmt.Sprintf("msg.huge %s %d %d | %s", kind, []int{300000, 262145, 524289, 1048577}[(j/3)%4], j, k.priv))
 		}
 		if flavour == "tamper-auth" && i%50 == 11 {
 			// a COSE_Sign nobody can verify (unknown kid in the first entry) with thousands of tiny signature entries and a
